@@ -27,7 +27,7 @@ class C12(Check):
     rule = (
         "cases: stacks of 0..3 middlewares of kinds pass-through / short-circuit / request-rewriting (other method and params, same id) / "
         "response-rewriting x error-handler tables (none, generic only, per-code only, both, up to 2 handlers per key; kinds identity / "
-        "annotate / replace-by-another-code; keys incl. the replacement codes themselves) x request documents over the 14-method registry "
+        "annotate / replace-by-another-code; keys incl. the replacement codes themselves) x request documents over the 15-method registry "
         "(successes, every failure class incl. an internal error raised outside the method body by a class based view's constructor, notifications, failing notifications, batches, rejected documents, non-JSON) x scripted method "
         "failures x sync / async dispatcher. Oracle: the reference server extended with the stack semantics predicts the response "
         "document, the executions and the exact event log (middleware enter events with method / id / params / context identity, handler "
@@ -42,7 +42,7 @@ class C12(Check):
     required_classes = ['mw/0', 'mw/1', 'mw/2', 'mw/3', 'mw/short-circuited', 'mw/kind/rewrite-request', 'mw/kind/rewrite-response',
                         'handlers/none', 'handlers/generic', 'handlers/per-code', 'handlers/ran', 'handlers/replace-ran',
                         'doc/batch-accepted', 'doc/not-json', 'doc/batch-rejected/invalid-element', 'notification/raises-exception', 'call/internal-error',
-                        'dispatcher/sync', 'dispatcher/async']
+                        'dispatcher/sync', 'dispatcher/async', 'async/sequential-batch']
 
     def strategy(self, tier: str):
         s_mw = st.one_of(
@@ -64,8 +64,9 @@ class C12(Check):
             gen = docs.document(reg, kinds=['single'] * 5 + ['batch'] * 4 + ['raw', 'mangled', 'value'],
                                 flavours=['valid'] * 10 + ['unknown-method'] * 2 + ['deviant', 'non-object'])
             return st.builds(
-                lambda text, beh, mws, table: {'dispatcher': kind, 'behaviours': beh, 'middlewares': mws, 'handlers': table, 'text': text},
-                gen, stdreg.behaviours(), st.lists(s_mw, max_size=3), s_table,
+                lambda text, beh, mws, table, conc: {'dispatcher': kind, 'behaviours': beh, 'middlewares': mws, 'handlers': table, 'text': text,
+                                                      'concurrent_batch': conc},
+                gen, stdreg.behaviours(), st.lists(s_mw, max_size=3), s_table, st.sampled_from([True, True, False]),
             )
         return st.one_of(for_kind('sync'), for_kind('async'))
 
@@ -96,7 +97,7 @@ class C12(Check):
         sentinel = object()
         ev.sentinel = sentinel
         hm.RT.reset(sentinel, behaviours, error_builder=sh.build_error)
-        d = hm.build_dispatcher(kind, registry, middlewares=mws, error_handlers=table)
+        d = hm.build_dispatcher(kind, registry, middlewares=mws, error_handlers=table, concurrent_batch=spec.get('concurrent_batch', True))
         obs = sh.Observation()
         obs.request_text = docs.render(spec['text'])
         # observe() resets RT with its own sentinel, so drive the dispatcher here
@@ -131,6 +132,8 @@ class C12(Check):
         n_mw = len(spec['middlewares'])
         classes.append(f"mw/{n_mw}")
         classes.append(f"dispatcher/{kind}")
+        if kind == 'async' and not spec.get('concurrent_batch', True):
+            classes.append('async/sequential-batch')
         for m in spec['middlewares']:
             classes.append(f"mw/kind/{m['kind']}")
         tb = spec['handlers']
